@@ -849,7 +849,12 @@ def n4(ck: Check) -> None:
                         ck.ob("N4", fm, fm.f.stmt_of(n), False, f"module-level object `{nm}` is mutated")
         # a module-level mutable object must not be handed out (stored in an object, returned, passed on) without a
         # copy: whoever receives it can change it for every diagram of the process
-        mm = module_mutables.get(f.module.name, {})
+        mm = dict(module_mutables.get(f.module.name, {}))
+        # ... also one that lives in another module of the package and is imported by name (`from biobalm.types import DEFAULTS`)
+        for nm_, tgt_ in f.module.imports.items():
+            mod_, _, orig_ = tgt_.rpartition(".")
+            if mod_ in module_mutables and orig_ in module_mutables[mod_]:
+                mm.setdefault(nm_, module_mutables[mod_][orig_])
         if mm:
             locals_ = {x.id for x in own_walk(f.node) if isinstance(x, ast.Name) and isinstance(x.ctx, ast.Store)} | set(f.params())
             for n in own_walk(f.node):
